@@ -23,8 +23,12 @@ def data_index_state(ctx, rule='C10-R1'):
     p = ctx.project
     f = p.func(INIT, rule)
     ctx.saw(f)
-    ex = Executor(p, inline=lambda q, d: q in ('ampycloud.data.AbstractChunk._cleanup_pdf',
-                                               'ampycloud.utils.utils.check_data_consistency'), max_depth=5)
+    def inline(q, d):
+        cf = p.funcs.get(q)
+        return q == 'ampycloud.utils.utils.check_data_consistency' or (
+            cf is not None and cf.module.name == 'ampycloud.data' and cf.name.startswith('_')
+            and not cf.name.startswith('__'))
+    ex = Executor(p, inline=inline, max_depth=6)
     s = ex.run(f)
     stores = [e for e in s.events if e.kind == 'store' and e.target == ('attr', SELF, '_data')]
     if len(stores) != 1:
